@@ -263,7 +263,9 @@ bool ops_repl(World &w, const Op &o) {
     if (!import_support) { xa = strip_support(xa); xb = strip_support(xb); }   // by design the reloaded topology then advertises the XML loader's own support bits
     if (!dropped && (!ok2 || xa != xb)) { std::string la, lb; first_diff(xa, xb, la, lb); viol0(w, "C05", "xml.reexport_differs", "re-export of the reloaded topology is not byte-identical: '%s' vs '%s'", la.substr(0, 600).c_str(), lb.substr(0, 600).c_str()); }
     // twins from now on
-    D.userdata = S.userdata;
+    // only what the reloaded topology holds: its gp_index counter restarts above the largest exported value, so the index of an object that
+    // was removed from the source earlier can be given to a new object here
+    D.userdata.clear(); for (auto &kv : S.userdata) if (dd.objs.count(kv.first)) D.userdata[kv.first] = kv.second;
     if (S.twin >= 0 && w.r[S.twin].twin == si) w.r[S.twin].twin = -1;
     bool same_filters = true; for (int i = 0; i < HWLOC_OBJ_TYPE_MAX; i++) if (ds.filters[i] != dd.filters[i]) same_filters = false;
     if (same_filters && !dropped) { S.twin = di; D.twin = si; S.twin_kind = D.twin_kind = 2; r.count("probe.xml_twin_lockstep_possible"); }
